@@ -152,6 +152,63 @@ func c05(c *ctx) {
 			}
 		})
 	}
+	// length forms that are longer than necessary (whether such a frame is refused or decoded is left
+	// open by C01; the harness decides this small family itself): after a control frame written in the
+	// 16- or 64-bit form, a control frame announcing more than 125 bytes in the same form must still
+	// be refused, and none of its payload may be delivered
+	for _, side := range []string{"server", "client"} {
+		for _, form := range []int{126, 127} {
+			for _, op := range []int{9, 10, 8} {
+				for _, pre := range []int{0, 3, 125} {
+					key := fmt.Sprintf("longform/%s/%d/%d/%d", side, form, op, pre)
+					if !vh.Only(key) {
+						continue
+					}
+					masked := side == "server"
+					longFrame := func(op int, n int, fill byte) []byte {
+						b := []byte{0x80 | byte(op), byte(form)}
+						if masked {
+							b[1] |= 0x80
+						}
+						if form == 126 {
+							b = append(b, byte(n>>8), byte(n))
+						} else {
+							b = append(b, 0, 0, 0, 0, 0, 0, byte(n>>8), byte(n))
+						}
+						if masked {
+							b = append(b, 0, 0, 0, 0)
+						}
+						return append(b, bytes.Repeat([]byte{fill}, n)...)
+					}
+					firstPay := byte('a')
+					if op == 8 {
+						firstPay = 0 // (a close payload is not looked at by the reader itself)
+					}
+					stream := append(longFrame(op, pre, firstPay), longFrame(op, 300, 'Z')...)
+					rd := &wsutil.Reader{Source: bytes.NewReader(stream), State: wsState(side)}
+					var delivered []byte
+					var lastErr error
+					for i := 0; i < 3 && lastErr == nil; i++ {
+						_, err := rd.NextFrame()
+						if err != nil {
+							lastErr = err
+							break
+						}
+						b, err := io.ReadAll(rd)
+						delivered = append(delivered, b...)
+						if err != nil {
+							lastErr = err
+						}
+					}
+					if lastErr == nil || bytes.Contains(delivered, []byte("Z")) {
+						t.meta.Direct = append(t.meta.Direct, map[string]interface{}{"key": key,
+							"what": fmt.Sprintf("a control frame announcing 300 bytes after one in a non-minimal length form was accepted (err=%v, %d of its bytes delivered)", lastErr, bytes.Count(delivered, []byte("Z")))})
+					}
+					t.traces++
+				}
+			}
+		}
+	}
 	// MaxFrameSize around the announced length
 	for _, side := range []string{"server", "client"} {
 		for _, max := range []int{129, 130, 131, 1, 3} {
@@ -196,6 +253,7 @@ var utf8Samples = []struct {
 	{"lead2run8", append(append([]byte{0xc3}, []byte("abcdefgh")...), 0xa9)}, {"lead3run16", append(append([]byte{0xe2, 0x82}, []byte("abcdefghijklmnop")...), 0xac)},
 	{"ufffd", []byte("a\xef\xbf\xbdb")}, {"ufffe", []byte("\xef\xbf\xbe\xef\xbf\xbf")}, {"ufeff", []byte("\xef\xbb\xbfbom")}, {"ufdd0", []byte("\xef\xb7\x90")},
 	{"nul", []byte{'a', 0, 'b'}}, {"u1fffe", []byte("\xf0\x9f\xbf\xbe")}, {"ufffdonly", []byte("\xef\xbf\xbd")},
+	{"max123cut", append(bytes.Repeat([]byte{'r'}, 121), 0xe2, 0x82)}, {"max123ok", append(bytes.Repeat([]byte{'r'}, 120), 0xe2, 0x82, 0xac)}, {"cut4", append(bytes.Repeat([]byte{'r'}, 20), 0xf0, 0x9f, 0x98)},
 	{"run8ok", []byte("abcdefgh\xc3\xa9ijklmnop")}, {"lead4run7", append(append([]byte{0xf0, 0x9f}, []byte("abcdefg")...), 0x98, 0x80)}, {"long", append([]byte("κόσμε-"), append(asciiPay(20, 0), []byte("-𝄞")...)...)},
 }
 
